@@ -456,6 +456,12 @@ func (x *Unit) onceDo(st *State, pc *preparedCall) []Val {
 	skip := st.clone()
 	x.assume(run, Not(done))
 	x.assume(skip, done)
+	// passing through Do synchronises with the one execution of the function: fields published by this Once
+	// (guarded_by T.field oncefield) may be accessed from here on, and inside the function itself
+	for _, s2 := range []*State{run, skip} {
+		g := x.ghostGet(s2, "syncedWith")
+		x.writeLV(s2, &LV{kind: lvMap, parent: &LV{kind: lvGlobal, key: "syncedWith", typ: g.Typ}, idx: pc.recv.T, typ: boolT}, Val{True, boolT})
+	}
 	x.writeLV(run, cell, Val{True, boolT})
 	fpc := &preparedCall{call: &ast.CallExpr{Fun: pc.call.Args[0], Lparen: pc.call.Lparen}, funVal: &pc.args[0]}
 	if lit, ok := ast.Unparen(pc.call.Args[0]).(*ast.FuncLit); ok {
